@@ -45,6 +45,24 @@ pub fn check(ctx: &Ctx, st: &mut Stats, c: &Case) {
                 st.nontrivial_key(hash64(&format!("{:?}", c)));
             }
             st.count(&format!("policy.{}", c.p.policy));
+            // "non-existent times are expressed as Invalid entries": with no policy, a time DEFINED as sunset + interval
+            // (sunrise - interval) cannot be reported on a day that has no sunset (sunrise)
+            if c.p.policy == "None" {
+                let ok = |pr: Prayer| res.get(&pr).map(|x| x.is_ok()).unwrap_or(false);
+                let mut orphans = vec![];
+                if p.intervals[&Prayer::Isha] != 0.0 && ok(Prayer::Isha) && !ok(Prayer::Maghrib) {
+                    orphans.push("Isha (= Maghrib + interval) reported, Maghrib Invalid");
+                }
+                if p.intervals[&Prayer::Fajr] != 0.0 && ok(Prayer::Fajr) && !ok(Prayer::Shurooq) {
+                    orphans.push("Fajr (= Shurooq - interval) reported, Shurooq Invalid");
+                }
+                if p.intervals[&Prayer::Isha] != 0.0 || p.intervals[&Prayer::Fajr] != 0.0 {
+                    st.count("interval_defined_times_checked_against_their_anchor(policy None)");
+                }
+                if !orphans.is_empty() {
+                    st.violate("nonexistent_time_not_invalid", c, json!({"why": orphans, "result": res_json(&res)}));
+                }
+            }
         }
     }
 }
@@ -473,6 +491,14 @@ pub fn hammer(flavour: &str, threads: usize, seed: u64, millis: u64) -> i32 {
             };
             let w = if r.chance(0.2) { Some(weather(r.range(100.0, 1050.0), r.range(-90.0, 57.0))) } else { None };
             reqs.push((p, l, d, w));
+            if r.chance(0.5) && reqs.len() < k {
+                // a sibling request: the same date seen from another zone (tables indexed by the day alone are shared
+                // by all offsets of that date)
+                let (p, l, d, w) = reqs.last().unwrap().clone();
+                let g2 = (f64::from(l.gmt) + *r.pick(&[1.0, -1.0, 0.5, 3.0, -5.5])).clamp(-12.0, 12.0);
+                let l2 = loc(f64::from(l.coords.latitude), (f64::from(l.coords.longitude) + 15.0).min(180.0), f64::from(l.coords.elevation), g2);
+                reqs.push((p, l2, d, w));
+            }
             if want_ngd && r.chance(0.6) && reqs.len() < k {
                 // a sibling request: same place, a neighbouring day (different search distance, nearby key)
                 let (p, l, d, w) = reqs.last().unwrap().clone();
